@@ -252,11 +252,12 @@ impl ToZinc for Uri {
 impl ToZinc for XStr {
     fn to_zinc<W: std::io::Write>(&self, writer: &mut W) -> Result<()> {
         writer.write_fmt(format_args!(
-            "{}{}(\"{}\")",
+            "{}{}(",
             self.r#type[0..1].to_uppercase(),
             &self.r#type[1..],
-            self.value
         ))?;
+        Str::from(self.value.as_str()).to_zinc(writer)?;
+        writer.write_all(b")")?;
         Ok(())
     }
 }
